@@ -132,6 +132,7 @@ structure Cfg.GoodScan (c : Cfg) : Prop where
   delSuffix : c.delSuffix = delText
   delCut : c.delCut = 10
   absPrefix : c.absPrefix = [47]
+  filterExact : c.filterExact = true
   linkGoneEnoent : c.linkGoneEnoent = true
   linkGoneEsrch : c.linkGoneEsrch = true
   infoGoneEnoent : c.infoGoneEnoent = true
